@@ -1,11 +1,23 @@
-from lib.core import Kani, Fn
+import os
+from lib.core import Kani, Verus, Fn, VERUS_DIR
+from lib import vx
+from verus import c15_writer_open as wo
 
 PROPERTY = 'C15'
 LEVEL = 'proof'
 I = 'crates/aranya-runtime/src/storage/linear/libc/imp.rs'
 M = 'storage::linear::libc::imp::verif_kani::'
 RT = dict(crate='aranya-runtime', features='testing,libc')
-HARNESS_FILES = ['kani/aranya-runtime/imp.rs']
+HARNESS_FILES = ['kani/aranya-runtime/imp.rs', 'verus/c15_writer_open.py']
+
+
+def build_open():
+    text, located, dropped, raws = wo.build()
+    d = os.path.join(VERUS_DIR, 'c15_writer_open')
+    os.makedirs(d, exist_ok=True)
+    vx.write_diff(raws, os.path.join(d, 'repo_vs_verified.diff'))
+    return text, located, dropped
+
 ST = ['write_all', 'sync', 'fallocate']
 CW = [Fn(I, 'commit', r'impl Write for Writer'), Fn(I, 'write_root', r'impl Writer'), Fn(I, 'append_at', r'impl Writer'), Fn(I, 'dump_bytes', r'impl File')]
 CON = ('Writer::commit, any pre-state: data writes at [old free_offset, new free_offset) (never in a root slot) . fdatasync . root record written to next_root '
@@ -19,6 +31,9 @@ def cw(name, tiers=('quick', 'thorough')):
 
 
 UNITS = [
+    Verus('c15_writer_open', build_open, min_verified=6,
+          contract='Writer::open root selection: Err iff neither slot holds a valid root; both valid => the higher generation wins (A on ties); one valid => that one; '
+                   'next_root = the OTHER slot; alloc_end = recovered free_offset (nothing past the recovered frontier is visible); other_root extracted as well'),
     Kani(M + 'c15_other_root_involution', fns=[Fn(I, 'other_root')], contract='other_root is an involution on {ROOT_A, ROOT_B}; slots precede FREE_START (complete)', **RT),
     Kani(M + 'c15_root_validate_contract', fns=[Fn(I, 'validate', r'impl Root')], contract='Root::validate Ok <=> checksum == calc_checksum(); fields returned unchanged (all roots)', cap_s=900, **RT),
     Kani(M + 'c15_root_checksum_inputs', fns=[Fn(I, 'calc_checksum', r'impl Root')], contract='calc_checksum is a function of exactly (generation, heads, fact_cache, free_offset)', cap_s=900, **RT),
@@ -30,12 +45,12 @@ TRUSTED = ['OS model: pwrite puts exactly the given bytes at the given offset; f
            'SipHash collision resistance is NOT claimed: the checksum contract is syntactic (which fields are hashed; validity <=> equality)']
 ASSUMPTIONS = ['crash points x lost/kept/torn unflushed writes (fault enumeration) are NOT explored: that is a different technique family. What is proved is the write-ordering / '
                'root-alternation discipline the crash argument rests on; the lemma "discipline => every crash image recovers to the last or the in-progress commit" is prose (DESIGN.md C15)',
-               'Writer::open root selection (newest valid generation wins) and File::load are not under contract yet']
+               'File::load (length-prefixed read + postcard decode) is external to the Writer::open unit: a slot is abstractly "Some(root) iff it loads and validates"']
 EXPLANATION = 'Write-ordering trace contract of the real Writer::commit/append_at over a logging OS model, for all pre-states and single OS failures; root validity contract over all roots.'
 MANIFEST = {
     'text': 'Proof of the write-ordering discipline (PROVED-LOCAL): for every writer state, commit appends data only past the committed frontier, makes it durable before the root that '
             'references it, writes the root to the slot that does not hold the last committed root, and flips slots only after the final barrier; roots validate iff their checksum matches. '
-            'Enumeration of crash images is not done (fault enumeration is a different family).',
+            'On reopen the newest valid root wins and the next commit targets the other slot (Verus, extracted Writer::open). Enumeration of crash images is not done (fault enumeration is a different family).',
     'note': 'OS calls are logging models (assumed contracts). Crash/torn-write enumeration and Writer::open selection are not covered.',
-    'technique': 'Kani trace contracts over a stubbed OS layer + CBMC',
+    'technique': 'Kani trace contracts over a stubbed OS layer + CBMC; Verus on the extracted Writer::open',
 }
